@@ -144,7 +144,8 @@ inductive SecurePath (q : Name) (qtype : Nat) (soa : Option Name) (rcode : Nat)
     (answers : List Ans) (nsecs : List Nsec) : Prop where
   /-- "direct match" -/
   | direct (r : Nsec) (hfind : nsecs.find? (fun r => Name.eq q r.owner) = some r)
-      (hq : hasType r qtype = false) (h47 : qtype ≠ 47) (h46 : qtype ≠ 46)
+      (hq : hasType r qtype = false) (hcn : hasType r TYPE_CNAME = false)
+      (h47 : qtype ≠ 47) (h46 : qtype ≠ 46)
       (hdel : IsAncestorDelegation r.types → qtype = 43)
       (hrc : rcode = 0) (hans : answers = []) : SecurePath q qtype soa rcode answers nsecs
   /-- the covering path -/
@@ -186,7 +187,7 @@ theorem verifyNsec_secure {q : Name} {qtype : Nat} {soa : Option Name} {rcode : 
                 isDelegation_iff] at hd
               simp only [RCODE_NOERROR, Bool.and_eq_true, beq_iff_eq,
                 Bool.not_eq_eq_eq_not, Bool.not_true] at hok
-              exact SecurePath.direct r hf ht.1.2 ht.1.1.1 ht.1.1.2 hd hok.1
+              exact SecurePath.direct r hf ht.1.2 ht.2 ht.1.1.1 ht.1.1.2 hd hok.1
                 (by simpa using hok.2)
             · cases h
       | none =>
@@ -222,6 +223,7 @@ inductive CoveredPath (q : Name) (qtype : Nat) (soa : Option Name) (rcode : Nat)
       (hw : prependStar (encloserStep q (encloserStep q n0 c.owner) c.next) = some wn)
       (hwc : findCovering soa wn nsecs = none) (hrc : rcode = 0) (hans : answers = [])
       (hr : r ∈ nsecs) (heq : Name.eq r.owner wn = true) (hq : hasType r qtype = false)
+      (hcn : hasType r TYPE_CNAME = false)
       (h47 : qtype ≠ 47) (h46 : qtype ≠ 46) (hdel : IsAncestorDelegation r.types → qtype = 43) :
       CoveredPath q qtype soa rcode answers nsecs n0 c
 
@@ -275,8 +277,8 @@ theorem verifyCovered_secure {q : Name} {qtype : Nat} {soa : Option Name} {rcode
               Bool.or_eq_false_iff, beq_eq_false_iff_ne, ne_eq, Bool.not_eq_false] at h3
             obtain ⟨⟨h31, h32⟩, r, hr, h33⟩ := h3
             have hans : answers = [] := by simpa using h31
-            obtain ⟨⟨⟨⟨⟨g1, g2⟩, g3⟩, g4⟩, _⟩, _⟩ := h33
-            refine CoveredPath.nodata wn r hw hwc h32 hans hr g1 g4 g2.1 g2.2 ?_
+            obtain ⟨⟨⟨⟨⟨g1, g2⟩, g3⟩, g4⟩, g5⟩, _⟩ := h33
+            refine CoveredPath.nodata wn r hw hwc h32 hans hr g1 g4 g5 g2.1 g2.2 ?_
             intro hd
             rcases g3 with g | g
             · rw [(isDelegation_iff _).2 hd] at g; cases g
@@ -299,13 +301,30 @@ theorem no_type_of_link {Z : ZoneView} {r : Nsec} {qtype : Nat} (hl : LinkOf Z r
   · rw [if_pos hd] at htypes
     have := hdel hd
     subst this
-    exact fun h => hnot (htypes.2.2 h)
+    exact fun h => hnot (htypes.2.1.2 h)
   · rw [if_neg hd] at htypes
     exact fun h => hnot ((htypes qtype h46 h47).2 h)
 
+/-- likewise for CNAME: no CNAME bit, no CNAME at the owner (a delegation owner never has one) -/
+theorem no_cname_of_link {Z : ZoneView} {r : Nsec} (hl : LinkOf Z r)
+    (hc : hasType r TYPE_CNAME = false) : ¬ Z.data (K r.owner) 5 := by
+  obtain ⟨_, _, _, _, htypes, _⟩ := hl
+  have hnot : 5 ∉ r.types := by
+    intro hmem
+    have := (hasType_iff r 5).2 hmem
+    change hasType r 5 = false at hc
+    rw [this] at hc
+    cases hc
+  by_cases hd : IsAncestorDelegation r.types
+  · rw [if_pos hd] at htypes
+    exact htypes.2.2
+  · rw [if_neg hd] at htypes
+    exact fun h => hnot ((htypes 5 (by decide) (by decide)).2 h)
+
 theorem claim_nodata_iff {q : Name} {qtype : Nat} {Z : ZoneView} :
-    Claim q qtype 0 [] Z ↔ (¬ Z.data (K q) qtype ∧
-      (¬ Z.Exists (K q) → ∀ c, Z.ClosestEncloser c (K q) → ¬ Z.data (c ++ [Spec.STAR]) qtype)) := by
+    Claim q qtype 0 [] Z ↔ ((¬ Z.data (K q) qtype ∧ ¬ Z.data (K q) 5) ∧
+      (¬ Z.Exists (K q) → ∀ c, Z.ClosestEncloser c (K q) →
+        ¬ Z.data (c ++ [Spec.STAR]) qtype ∧ ¬ Z.data (c ++ [Spec.STAR]) 5)) := by
   unfold Claim; simp
 
 theorem claim_nxdomain_iff {q : Name} {qtype : Nat} {answers : List Ans} {Z : ZoneView} :
@@ -323,7 +342,7 @@ theorem claim_answer_iff {q : Name} {qtype : Nat} {answers : List Ans} {Z : Zone
 theorem sound_direct {q : Name} {qtype : Nat} {soa : Option Name} {nsecs : List Nsec}
     {r : Nsec} (hwf : InputsWF q soa [] nsecs)
     (hfind : nsecs.find? (fun r => Name.eq q r.owner) = some r)
-    (hq : hasType r qtype = false)
+    (hq : hasType r qtype = false) (hcn : hasType r TYPE_CNAME = false)
     (hdel : IsAncestorDelegation r.types → qtype = 43) (h46 : qtype ≠ 46) (h47 : qtype ≠ 47)
     (Z : ZoneView) (hZ : ConsistentWith nsecs Z) : Claim q qtype 0 [] Z := by
   have hr : r ∈ nsecs := List.mem_of_find?_eq_some hfind
@@ -332,7 +351,7 @@ theorem sound_direct {q : Name} {qtype : Nat} {soa : Option Name} {nsecs : List 
   have hl := hZ r hr
   rw [claim_nodata_iff]
   refine ⟨?_, ?_⟩
-  · rw [hk]; exact no_type_of_link hl hq hdel h46 h47
+  · rw [hk]; exact ⟨no_type_of_link hl hq hdel h46 h47, no_cname_of_link hl hcn⟩
   · intro hne
     exact absurd ⟨K r.owner, link_owner_data hl, by rw [hk]; exact List.prefix_refl _⟩ hne
 
@@ -391,7 +410,8 @@ theorem sound_ent_nodata {q : Name} {qtype : Nat} {soa : Option Name} {nsecs : L
     (hent : isStrictDescendant c.next q = true) : Claim q qtype 0 [] Z := by
   have hl := ctx.hZ c ctx.cmem
   rw [claim_nodata_iff]
-  refine ⟨fun hd => no_data_of_cover hl ctx.ccov ctx.cdel ⟨qtype, hd⟩, ?_⟩
+  refine ⟨⟨fun hd => no_data_of_cover hl ctx.ccov ctx.cdel ⟨qtype, hd⟩,
+    fun hd => no_data_of_cover hl ctx.ccov ctx.cdel ⟨5, hd⟩⟩, ?_⟩
   intro hne
   unfold isStrictDescendant at hent
   simp only [Bool.and_eq_true] at hent
@@ -439,6 +459,7 @@ theorem sound_nodata {q : Name} {qtype : Nat} {soa : Option Name} {nsecs : List 
     (hs : ∀ s, soa = some s → n0 = s ∧ K s <+: K q) (hn : soa = none → n0 = Name.root)
     (hw : prependStar (encloserStep q (encloserStep q n0 c.owner) c.next) = some w)
     (hr : r ∈ nsecs) (heq : Name.eq r.owner w = true) (hq : hasType r qtype = false)
+    (hcn : hasType r TYPE_CNAME = false)
     (hrdel : IsAncestorDelegation r.types → qtype = 43)
     (h46 : qtype ≠ 46) (h47 : qtype ≠ 47) :
     Claim q qtype 0 [] Z := by
@@ -450,10 +471,11 @@ theorem sound_nodata {q : Name} {qtype : Nat} {soa : Option Name} {nsecs : List 
   have hkr : K r.owner = K w := (eq_iff_key (ctx.nf r hr).1 hwfq).1 heq
   have hrl := ctx.hZ r hr
   rw [claim_nodata_iff]
-  refine ⟨fun hd => no_data_of_cover (ctx.hZ c ctx.cmem) ctx.ccov ctx.cdel ⟨qtype, hd⟩, ?_⟩
+  refine ⟨⟨fun hd => no_data_of_cover (ctx.hZ c ctx.cmem) ctx.ccov ctx.cdel ⟨qtype, hd⟩,
+    fun hd => no_data_of_cover (ctx.hZ c ctx.cmem) ctx.ccov ctx.cdel ⟨5, hd⟩⟩, ?_⟩
   intro hnq ce hce
   rw [closest_encloser_eq ctx h0 (start_exists ctx hs hn) hnq hce, ← hkw, ← hkr]
-  exact no_type_of_link hrl hq hrdel h46 h47
+  exact ⟨no_type_of_link hrl hq hrdel h46 h47, no_cname_of_link hrl hcn⟩
 
 theorem rfcLabels_append_star (k : Key) : rfcLabels (k ++ [Spec.STAR]) = k.length := by
   unfold rfcLabels; simp
@@ -573,9 +595,9 @@ theorem soundness {q : Name} {qtype : Nat} {soa : Option Name} {rcode : Nat}
     (Z : ZoneView) (hapex : ∀ s, soa = some s → canonKey s = Z.apex)
     (hZ : ConsistentWith nsecs Z) : Claim q qtype rcode answers Z := by
   cases verifyNsec_secure hsec with
-  | direct r hfind hq h47 h46 hdel hrc0 hans =>
+  | direct r hfind hq hcn h47 h46 hdel hrc0 hans =>
     subst hrc0; subst hans
-    exact sound_direct hwf hfind hq hdel h46 h47 Z hZ
+    exact sound_direct hwf hfind hq hcn hdel h46 h47 Z hZ
   | covered n0 c hstart hfind hcov hsec' =>
     obtain ⟨h0, hn0f, hs, hn⟩ := startOf_some hwf.q hwf.soa hstart
     obtain ⟨hcm, hcc⟩ := findCovering_some hcov
@@ -594,8 +616,8 @@ theorem soundness {q : Name} {qtype : Nat} {soa : Option Name} {rcode : Nat}
     | answer hrc0 hans hcl hncm =>
       subst hrc0
       exact sound_answer ctx hans hwf.answers hcl
-    | nodata wn r hw hwc hrc0 hans hr heq hq h47 h46 hdel =>
+    | nodata wn r hw hwc hrc0 hans hr heq hq hcn h47 h46 hdel =>
       subst hrc0; subst hans
-      exact sound_nodata ctx h0 hn0f hs (fun h => hn h rfl) hw hr heq hq hdel h46 h47
+      exact sound_nodata ctx h0 hn0f hs (fun h => hn h rfl) hw hr heq hq hcn hdel h46 h47
 
 end HickoryVerif.C08
